@@ -1275,8 +1275,10 @@ fn ops_for(bits: usize) -> Vec<&'static str> {
 // ---------------------------------------------------------------------------
 
 /// Fixed, seed-independent corpus: small values in wide types and every
-/// format's mode boundaries.
-fn directed(bits: usize) -> Vec<Vec<u64>> {
+/// format's mode boundaries. In light lanes (Miri, memcheck) a value is thinned
+/// with `Mon::keep` *before* it is computed, because there even building the
+/// corpus is expensive; every surviving value is then run through all ops.
+fn directed(m: &mut Mon, bits: usize) -> Vec<Vec<u64>> {
     if bits == 0 {
         return vec![vec![]];
     }
@@ -1291,50 +1293,58 @@ fn directed(bits: usize) -> Vec<Vec<u64>> {
             }
         }
     };
+    macro_rules! put {
+        ($e:expr) => {
+            if m.keep() {
+                push(&$e);
+            }
+        };
+    }
     for v in gen::boundary(bits) {
-        push(&big::big(&v));
+        put!(big::big(&v));
     }
     // small values in wide types
     for x in 0..=300u32 {
-        push(&BigUint::from(x));
+        put!(BigUint::from(x));
     }
     // mode boundaries of RLP (0x7f/0x80), SCALE compact (2^6, 2^14, 2^30),
     // postgres integer columns (2^15, 2^31, 2^32, 2^63), u64/u128 fast paths
     for k in [6usize, 7, 8, 14, 15, 16, 24, 30, 31, 32, 33, 56, 62, 63, 64, 65, 120, 126, 127, 128, 129] {
-        let c = big::p2(k);
         for d in 0..=2u32 {
-            push(&(&c + d));
-            push(&(&c - d));
+            put!(big::p2(k) + d);
+            put!(big::p2(k) - d);
         }
     }
     // MONEY: largest i64 that survives *100
     for d in 0..=2u64 {
-        push(&BigUint::from(92_233_720_368_547_758u64 - 1 + d));
+        put!(BigUint::from(92_233_720_368_547_758u64 - 1 + d));
     }
     // byte-length boundaries: 2^(8k)-1, 2^(8k), and the sign-bit boundary
     // 2^(8k-1) of DER; covers the 55/56-byte RLP and 127/128-byte DER cases
     for k in 1..=nbytes(bits) {
-        let c = big::p2(8 * k);
-        let h = big::p2(8 * k - 1);
-        push(&(&c - 1u32));
-        push(&c);
-        push(&(&c + 1u32));
-        push(&(&h - 1u32));
-        push(&h);
-        push(&(&h + 1u32));
+        put!(big::p2(8 * k) - 1u32);
+        put!(big::p2(8 * k));
+        put!(big::p2(8 * k) + 1u32);
+        put!(big::p2(8 * k - 1) - 1u32);
+        put!(big::p2(8 * k - 1));
+        put!(big::p2(8 * k - 1) + 1u32);
     }
     // payloads of an exact byte length with a chosen top byte
     for len in [1usize, 2, 3, 4, 5, 7, 8, 9, 15, 16, 17, 31, 32, 33, 54, 55, 56, 57, 63, 64, 65, 66, 67, 68, 127, 128] {
         for top in [0x01u8, 0x7f, 0x80, 0xff] {
-            let mut be = vec![top];
-            for i in 1..len {
-                be.push((i as u8).wrapping_mul(0x3d) ^ 0x5a);
-            }
-            push(&BigUint::from_bytes_be(&be));
+            put!({
+                let mut be = vec![top];
+                for i in 1..len {
+                    be.push((i as u8).wrapping_mul(0x3d) ^ 0x5a);
+                }
+                BigUint::from_bytes_be(&be)
+            });
             // and with zero low bytes (trailing zeros in LE/NUMERIC-like trimming)
-            let mut be = vec![top];
-            be.resize(len, 0);
-            push(&BigUint::from_bytes_be(&be));
+            put!({
+                let mut be = vec![top];
+                be.resize(len, 0);
+                BigUint::from_bytes_be(&be)
+            });
         }
     }
     // NUMERIC: base-10000 digit boundaries, trailing zero digits are trimmed
@@ -1346,19 +1356,20 @@ fn directed(bits: usize) -> Vec<Vec<u64>> {
             break;
         }
         if k <= 6 || k % 8 == 0 || k % 19 <= 1 || !big::fits(&(&p * &t * &t), bits) {
-            push(&(&p - 1u32));
-            push(&p);
-            push(&(&p + 1u32));
-            push(&(&p * 9999u32));
-            push(&(&p * 5u32));
+            put!(&p - 1u32);
+            put!(p.clone());
+            put!(&p + 1u32);
+            put!(&p * 9999u32);
+            put!(&p * 5u32);
         }
     }
     // bn254 moduli (ark-ff NotInField boundary)
-    for s in [BN254_FR, BN254_FQ] {
-        let q = modulus(s);
-        for d in 0..=2u32 {
-            push(&(&q + d));
-            push(&(&q - d));
+    if bits >= 250 {
+        for s in [BN254_FR, BN254_FQ] {
+            for d in 0..=2u32 {
+                put!(modulus(s) + d);
+                put!(modulus(s) - d);
+            }
         }
     }
     out
@@ -1394,14 +1405,11 @@ fn workload(m: &mut Mon, bits: usize) {
         return;
     }
     // Directed corpus.
-    let vals = directed(bits);
+    let vals = directed(m, bits);
     for op in &ops {
         for (i, v) in vals.iter().enumerate() {
             if i % 512 == 0 && m.time_up() {
                 return;
-            }
-            if !m.keep() {
-                continue;
             }
             m.case(op, bits, vec![au(v)]);
         }
